@@ -398,6 +398,10 @@ class EDEOption(Option):  # lgtm[py/missing-equals]
         self.code = EDECode.make(code)
         if text is not None and not isinstance(text, str):
             raise ValueError("text must be string or None")
+        if text is not None:
+            # EXTRA-TEXT may be NUL-terminated on the wire; the terminator is not
+            # part of the text (from_wire strips it), so never keep one here either.
+            text = text.rstrip("\x00")
         self.text = text
 
     def to_text(self) -> str:
